@@ -1,1 +1,429 @@
-/-! # C15 — property theorems (to be filled in) -/
+import JokerVerif.Lemmas.DataLemmas
+import Mathlib.Algebra.Field.Basic
+/-!
+# C15 — RVData preserves the observations it is given
+
+Property theorems only.  All statements hold for every input length, every placement of non-finite values,
+every `clean`, every `t_ref` argument and **every** permutation `perm` the model accepts as the result of
+`argsort` (numpy's default sort is not stable, so on tied times several permutations are possible).
+`fint`/`finv` = "is finite" on times / velocities, `le` = the order on times (hypotheses on it are stated where
+needed).  `selection keep perm` is the list of input positions that make up the output, in output order.
+-/
+namespace Data
+variable {τ ν υ : Type} (fint : τ → Bool) (finv : ν → Bool) (le : τ → τ → Bool)
+
+/-- each time stays paired with its own velocity and uncertainty: the zipped output arrays are the zipped
+input arrays indexed by the one selection list -/
+theorem pairing_preserved (ts : List τ) (rvs es : List ν) (uRv uErr : υ) (clean : Bool) (tref : TRefArg τ)
+    (perm : List Nat) (d : RV τ ν υ)
+    (h : init fint finv le ts rvs (.std es) uRv uErr clean tref perm = .ok d) :
+    ∃ es', d.unc = .std es' ∧
+      d.t.zip (d.rv.zip es')
+        = gather (selection (keepMask fint finv clean ts rvs (.std es)) perm) (ts.zip (rvs.zip es)) := by
+  obtain ⟨hs, _, ht, hr, hu, _, _, _⟩ := init_ok fint finv le ts rvs (.std es) uRv uErr clean tref perm d h
+  have hk := keepMask_length fint finv clean ts rvs (.std es) hs
+  obtain ⟨he, htl⟩ := shapeOk_std hs
+  refine ⟨gather (selection (keepMask fint finv clean ts rvs (.std es)) perm) es, ?_, ?_⟩
+  · rw [hu]; exact unc_std_gather _ perm es (by omega)
+  · rw [ht, hr, gather_zip _ ts _ (by rw [List.length_zip]; omega), gather_zip _ rvs es he.symm]
+
+/-- covariance input: time and velocity stay paired and the covariance is re-indexed in rows **and**
+columns by the same list: `cov'[i][j] = cov[π i][π j]` -/
+theorem pairing_preserved_cov (ts : List τ) (rvs : List ν) (c : Cov ν) (uRv uErr : υ) (clean : Bool)
+    (tref : TRefArg τ) (perm : List Nat) (d : RV τ ν υ)
+    (h : init fint finv le ts rvs (.cov c) uRv uErr clean tref perm = .ok d) :
+    let π := selection (keepMask fint finv clean ts rvs (.cov c)) perm
+    ∃ c', d.unc = .cov c' ∧ d.t.zip d.rv = gather π (ts.zip rvs) ∧
+      ∀ i j, entry c' i j = (π[i]?).bind (fun a => (π[j]?).bind (fun b => entry c a b)) := by
+  intro π
+  obtain ⟨hs, _, ht, hr, hu, _, _, _⟩ := init_ok fint finv le ts rvs (.cov c) uRv uErr clean tref perm d h
+  have hk := keepMask_length fint finv clean ts rvs (.cov c) hs
+  obtain ⟨hc, hrow, htl⟩ := shapeOk_cov hs
+  refine ⟨(gather π c).map (gather π), ?_, ?_, ?_⟩
+  · rw [hu]; exact unc_cov_gather _ perm c (by omega) (fun row hr => by rw [hrow row hr]; omega)
+  · rw [ht, hr, gather_zip _ ts rvs htl]
+  · intro i j
+    exact entry_gather π c rvs.length hc hrow
+      (fun a ha => by have := selection_lt _ perm a ha; omega) i j
+
+/-- exactly the finite input observations are kept (all of them when `clean = false`): nothing lost,
+duplicated or invented, whatever permutation the sort produced -/
+theorem kept_are_finite_inputs (ts : List τ) (rvs es : List ν) (uRv uErr : υ) (clean : Bool) (tref : TRefArg τ)
+    (perm : List Nat) (d : RV τ ν υ)
+    (h : init fint finv le ts rvs (.std es) uRv uErr clean tref perm = .ok d) :
+    ∃ es', d.unc = .std es' ∧
+      (d.t.zip (d.rv.zip es')).Perm
+        (if clean then (ts.zip (rvs.zip es)).filter (fun x => fint x.1 && finv x.2.1 && finv x.2.2)
+         else ts.zip (rvs.zip es)) := by
+  obtain ⟨es', hu', hz⟩ := pairing_preserved fint finv le ts rvs es uRv uErr clean tref perm d h
+  obtain ⟨hs, hv, _, _, _, _, _, _⟩ := init_ok fint finv le ts rvs (.std es) uRv uErr clean tref perm d h
+  have hk := keepMask_length fint finv clean ts rvs (.std es) hs
+  obtain ⟨he, htl⟩ := shapeOk_std hs
+  refine ⟨es', hu', ?_⟩
+  rw [hz]
+  have hzl : (ts.zip (rvs.zip es)).length = ts.length := by simp [List.length_zip]; omega
+  rw [← gather_maskSel _ perm _ (by omega)]
+  simp only [validPerm, Bool.and_eq_true] at hv
+  have hlen := maskSel_length_eq (keepMask fint finv clean ts rvs (.std es)) (ts.zip (rvs.zip es)) ts hzl
+  have hp := gather_perm perm (maskSel (keepMask fint finv clean ts rvs (.std es)) (ts.zip (rvs.zip es)))
+    (by rw [hlen]; exact isPermOfRange_perm _ _ hv.1)
+  refine hp.trans ?_
+  cases clean with
+  | true =>
+    simp only [keepMask, finMask, if_true]
+    rw [maskSel_map_eq_filter]
+  | false =>
+    simp only [keepMask, Bool.false_eq_true, if_false]
+    rw [maskSel_all_true ts _ hzl]
+
+/-- covariance input: the positions kept are a permutation (no repeats, none missing) of the positions whose
+time, velocity and covariance column are finite (all positions when `clean = false`) -/
+theorem kept_are_finite_inputs_cov (ts : List τ) (rvs : List ν) (c : Cov ν) (uRv uErr : υ) (clean : Bool)
+    (tref : TRefArg τ) (perm : List Nat) (d : RV τ ν υ)
+    (h : init fint finv le ts rvs (.cov c) uRv uErr clean tref perm = .ok d) :
+    let π := selection (keepMask fint finv clean ts rvs (.cov c)) perm
+    π.Nodup ∧ ∀ j, j ∈ π ↔ ∃ t r, ts[j]? = some t ∧ rvs[j]? = some r ∧
+      (clean = true → (fint t && finv r && colFinite finv c j) = true) := by
+  intro π
+  obtain ⟨hs, hv, _, _, _, _, _, _⟩ := init_ok fint finv le ts rvs (.cov c) uRv uErr clean tref perm d h
+  have hk := keepMask_length fint finv clean ts rvs (.cov c) hs
+  obtain ⟨hc, hrow, htl⟩ := shapeOk_cov hs
+  simp only [validPerm, Bool.and_eq_true] at hv
+  have hkl := keptIdx_length (keepMask fint finv clean ts rvs (.cov c)) ts (by omega)
+  have hp : π.Perm (keptIdx (keepMask fint finv clean ts rvs (.cov c))) :=
+    selection_perm _ perm (by rw [hkl]; exact hv.1)
+  refine ⟨(hp.nodup_iff).mpr (keptIdx_nodup _), ?_⟩
+  intro j
+  rw [hp.mem_iff, mem_keptIdx]
+  cases clean with
+  | true =>
+    simp only [keepMask, finMask, if_true, List.getElem?_map, List.getElem?_zipIdx, List.getElem?_zip_eq_some,
+      Option.map_eq_some_iff, Nat.zero_add]
+    constructor
+    · rintro ⟨⟨⟨t, r⟩, k⟩, ⟨⟨t', r'⟩, ⟨h1, h2⟩, h3⟩, h4⟩
+      simp only [Prod.mk.injEq] at h3
+      obtain ⟨⟨rfl, rfl⟩, rfl⟩ := h3
+      exact ⟨t', r', h1, h2, fun _ => h4⟩
+    · rintro ⟨t, r, h1, h2, h3⟩
+      exact ⟨((t, r), j), ⟨(t, r), ⟨h1, h2⟩, rfl⟩, h3 trivial⟩
+  | false =>
+    simp only [keepMask, Bool.false_eq_true, if_false, List.getElem?_map, Option.map_eq_some_iff, and_true,
+      false_imp_iff]
+    constructor
+    · rintro ⟨t, ht⟩
+      have hj : j < rvs.length := by rw [← htl]; exact (List.getElem?_eq_some_iff.mp ht).1
+      exact ⟨t, rvs[j], ht, List.getElem?_eq_getElem hj⟩
+    · rintro ⟨t, r, h1, _⟩
+      exact ⟨t, h1⟩
+
+/-- the stored times are in non-decreasing order -/
+theorem sorted_by_time (htrans : ∀ a b c, le a b = true → le b c = true → le a c = true)
+    (ts : List τ) (rvs : List ν) (unc : Unc ν) (uRv uErr : υ) (clean : Bool) (tref : TRefArg τ)
+    (perm : List Nat) (d : RV τ ν υ)
+    (h : init fint finv le ts rvs unc uRv uErr clean tref perm = .ok d) :
+    d.t.Pairwise (fun a b => le a b = true) := by
+  obtain ⟨hs, hv, ht, _, _, _, _, _⟩ := init_ok fint finv le ts rvs unc uRv uErr clean tref perm d h
+  have hk := keepMask_length fint finv clean ts rvs unc hs
+  have htl := shapeOk_t hs
+  simp only [validPerm, Bool.and_eq_true] at hv
+  rw [ht, ← gather_maskSel _ perm ts (by omega)]
+  exact isSorted_pairwise le htrans _ hv.2
+
+/-- velocities and uncertainties stay in the units supplied -/
+theorem units_unchanged (ts : List τ) (rvs : List ν) (unc : Unc ν) (uRv uErr : υ) (clean : Bool)
+    (tref : TRefArg τ) (perm : List Nat) (d : RV τ ν υ)
+    (h : init fint finv le ts rvs unc uRv uErr clean tref perm = .ok d) :
+    d.rvUnit = uRv ∧ d.errUnit = uErr := by
+  obtain ⟨_, _, _, _, _, h1, h2, _⟩ := init_ok fint finv le ts rvs unc uRv uErr clean tref perm d h
+  exact ⟨h1, h2⟩
+
+/-- 1-D errors: `ivar` is the reciprocal variance of each stored uncertainty -/
+theorem ivar_is_reciprocal_variance [Field ν] (inv : Cov ν → Cov ν) (d : RV τ ν υ) (e : List ν)
+    (h : d.unc = .std e) : d.ivar inv = .std (e.map (fun x => (x ^ 2)⁻¹)) := by
+  simp only [RV.ivar, h, ivarStd, one_div, sq]
+
+/-- … so that `ivar · σ² = 1` for every non-zero uncertainty -/
+theorem ivar_mul_variance [Field ν] (e : List ν) (x : ν) (i : Nat) (hx : e[i]? = some x) (hne : x ≠ 0) :
+    ∃ w, (ivarStd e)[i]? = some w ∧ w * x ^ 2 = 1 := by
+  refine ⟨1 / (x * x), by simp [ivarStd, hx], ?_⟩
+  rw [sq, one_div, inv_mul_cancel₀ (mul_ne_zero hne hne)]
+
+/-- covariance input: `ivar` is the inverse (oracle `inv` with contract `IsInv (inv c) c`) of the *stored*
+covariance, i.e. by `pairing_preserved_cov` of the input covariance re-indexed by the selection list in rows and
+columns -/
+theorem ivar_cov_is_inverse [Mul ν] [Div ν] [OfNat ν 1] (inv : Cov ν → Cov ν) (IsInv : Cov ν → Cov ν → Prop)
+    (hinv : ∀ c, IsInv (inv c) c) (d : RV τ ν υ) (c : Cov ν) (h : d.unc = .cov c) :
+    ∃ w, d.ivar inv = .cov w ∧ IsInv w c := by
+  exact ⟨inv c, by simp [RV.ivar, h, ivarCov], hinv c⟩
+
+/-- the reference epoch defaults to the earliest kept time -/
+theorem tref_default_is_min_time (hrefl : ∀ a, le a a = true)
+    (htrans : ∀ a b c, le a b = true → le b c = true → le a c = true)
+    (ts : List τ) (rvs : List ν) (unc : Unc ν) (uRv uErr : υ) (clean : Bool) (perm : List Nat) (d : RV τ ν υ)
+    (h : init fint finv le ts rvs unc uRv uErr clean .default perm = .ok d) :
+    ∃ m, d.tref = some m ∧ m ∈ d.t ∧ (∀ x ∈ d.t, le m x = true) ∧
+      m ∈ maskSel (keepMask fint finv clean ts rvs unc) ts ∧
+      ∀ x ∈ maskSel (keepMask fint finv clean ts rvs unc) ts, le m x = true := by
+  have hsorted := sorted_by_time fint finv le htrans ts rvs unc uRv uErr clean .default perm d h
+  obtain ⟨hs, hv, ht, _, _, _, _, hr⟩ := init_ok fint finv le ts rvs unc uRv uErr clean .default perm d h
+  have hk := keepMask_length fint finv clean ts rvs unc hs
+  have htl := shapeOk_t hs
+  simp only [validPerm, Bool.and_eq_true] at hv
+  have hp : d.t.Perm (maskSel (keepMask fint finv clean ts rvs unc) ts) := by
+    rw [ht, ← gather_maskSel _ perm ts (by omega)]
+    exact gather_perm perm _ (isPermOfRange_perm _ _ hv.1)
+  cases hd : d.t with
+  | nil => rw [hd] at hr; simp [resolveTRef] at hr
+  | cons m r =>
+    rw [hd] at hr hsorted hp
+    simp only [resolveTRef] at hr
+    have hm : d.tref = some m := by injection hr with hr; exact hr.symm
+    have hall : ∀ x ∈ m :: r, le m x = true := by
+      intro x hx
+      rcases List.mem_cons.mp hx with rfl | hx
+      · exact hrefl _
+      · exact (List.pairwise_cons.mp hsorted).1 x hx
+    exact ⟨m, hm, List.mem_cons_self, hall, hp.subset List.mem_cons_self,
+      fun x hx => hall x (hp.symm.subset hx)⟩
+
+/-- an explicit reference epoch is stored as given, `t_ref=False` stores none -/
+theorem tref_explicit_kept (ts : List τ) (rvs : List ν) (unc : Unc ν) (uRv uErr : υ) (clean : Bool)
+    (perm : List Nat) (d : RV τ ν υ) :
+    (∀ x, init fint finv le ts rvs unc uRv uErr clean (.explicit x) perm = .ok d → d.tref = some x) ∧
+    (init fint finv le ts rvs unc uRv uErr clean .disabled perm = .ok d → d.tref = none) := by
+  constructor
+  · intro x h
+    obtain ⟨_, _, _, _, _, _, _, hr⟩ := init_ok fint finv le ts rvs unc uRv uErr clean _ perm d h
+    simp only [resolveTRef] at hr
+    injection hr with hr; exact hr.symm
+  · intro h
+    obtain ⟨_, _, _, _, _, _, _, hr⟩ := init_ok fint finv le ts rvs unc uRv uErr clean _ perm d h
+    simp only [resolveTRef] at hr
+    injection hr with hr; exact hr.symm
+
+/-- what `copy` does to the arrays: every array (rows and columns of a covariance) is re-indexed by the one
+permutation `perm` of the positions, nothing is filtered, units and reference epoch are carried over -/
+theorem copy_arrays (d : RV τ ν υ) (perm : List Nat) (d' : RV τ ν υ)
+    (h : copy fint finv le d perm = .ok d') :
+    perm.Perm (List.range d.t.length) ∧ d'.t = gather perm d.t ∧ d'.rv = gather perm d.rv ∧
+    d'.unc = d.unc.gather perm ∧ d'.tref = d.tref ∧ d'.rvUnit = d.rvUnit ∧ d'.errUnit = d.errUnit := by
+  unfold copy at h
+  obtain ⟨hs, hv, ht, hr, hu, h1, h2, hres⟩ := init_ok fint finv le _ _ _ _ _ _ _ perm d' h
+  have htl := shapeOk_t hs
+  simp only [validPerm, Bool.and_eq_true] at hv
+  have hkeep : keepMask fint finv false d.t d.rv d.unc = d.t.map (fun _ => true) := by simp [keepMask]
+  rw [hkeep] at hv ht hr hu
+  rw [maskSel_all_true d.t d.t rfl] at hv
+  have hperm := isPermOfRange_perm _ _ hv.1
+  have hlt : ∀ i ∈ perm, i < d.t.length := perm_lt_of_isPermOfRange _ _ hv.1
+  rw [selection_all_true d.t perm hlt] at ht hr
+  refine ⟨hperm, ht, hr, ?_, ?_, h1, h2⟩
+  · rw [hu]
+    cases hunc : d.unc with
+    | std e =>
+      rw [hunc] at hs
+      have := shapeOk_std hs
+      simp only [Unc.mask, Unc.gather]
+      rw [maskSel_all_true d.t e (by omega)]
+    | cov c =>
+      rw [hunc] at hs
+      obtain ⟨hc, hrow, _⟩ := shapeOk_cov hs
+      simp only [Unc.mask, Unc.gather]
+      rw [maskSel_all_true d.t c (by omega)]
+      have : c.map (maskSel (d.t.map (fun _ => true))) = c := by
+        conv => rhs; rw [← List.map_id c]
+        apply List.map_congr_left
+        intro row hr
+        rw [maskSel_all_true d.t row (by rw [hrow row hr]; omega)]; rfl
+      rw [this]
+  · cases htr : d.tref with
+    | none => rw [htr] at hres; simp only [trefArgOf, resolveTRef] at hres; injection hres with e; exact e.symm
+    | some x => rw [htr] at hres; simp only [trefArgOf, resolveTRef] at hres; injection hres with e; exact e.symm
+
+/-- `copy()` preserves the observations (same multiset of `(t, rv, err)` triples, in time order), the units
+**and the reference epoch** (also "no reference epoch") -/
+theorem copy_preserves (htrans : ∀ a b c, le a b = true → le b c = true → le a c = true)
+    (d : RV τ ν υ) (e : List ν) (hu : d.unc = .std e) (perm : List Nat) (d' : RV τ ν υ)
+    (h : copy fint finv le d perm = .ok d') :
+    d'.tref = d.tref ∧ d'.rvUnit = d.rvUnit ∧ d'.errUnit = d.errUnit ∧
+    d'.t.Pairwise (fun a b => le a b = true) ∧
+    ∃ e', d'.unc = .std e' ∧ (d'.t.zip (d'.rv.zip e')).Perm (d.t.zip (d.rv.zip e)) := by
+  obtain ⟨_, _, _, _, htr, h1, h2⟩ := copy_arrays fint finv le d perm d' h
+  refine ⟨htr, h1, h2, sorted_by_time fint finv le htrans _ _ _ _ _ _ _ perm d' h, ?_⟩
+  unfold copy at h
+  rw [hu] at h
+  obtain ⟨e', he', hp⟩ := kept_are_finite_inputs fint finv le _ _ _ _ _ _ _ perm d' h
+  exact ⟨e', he', by simpa using hp⟩
+
+/-- covariance: `copy()` re-indexes rows and columns by the same permutation of the positions -/
+theorem copy_preserves_cov (d : RV τ ν υ) (c : Cov ν) (hu : d.unc = .cov c) (perm : List Nat) (d' : RV τ ν υ)
+    (h : copy fint finv le d perm = .ok d') :
+    d'.tref = d.tref ∧ perm.Perm (List.range d.t.length) ∧ d'.t.zip d'.rv = gather perm (d.t.zip d.rv) ∧
+    ∃ c', d'.unc = .cov c' ∧
+      ∀ i j, entry c' i j = (perm[i]?).bind (fun a => (perm[j]?).bind (fun b => entry c a b)) := by
+  obtain ⟨hperm, ht, hr, hunc, htr, _, _⟩ := copy_arrays fint finv le d perm d' h
+  unfold copy at h
+  obtain ⟨hs, _⟩ := init_ok fint finv le _ _ _ _ _ _ _ perm d' h
+  rw [hu] at hs hunc
+  obtain ⟨hc, hrow, htl⟩ := shapeOk_cov hs
+  refine ⟨htr, hperm, ?_, (gather perm c).map (gather perm), hunc, ?_⟩
+  · rw [ht, hr, gather_zip _ _ _ htl]
+  · intro i j
+    exact entry_gather perm c d.rv.length hc hrow
+      (fun a ha => by have := List.mem_range.mp (hperm.mem_iff.mp ha); omega) i j
+
+/-- time-sorted data whose times are distinct: the copy is the object itself, bit for bit -/
+theorem copy_eq_of_sorted (hanti : ∀ a b, le a b = true → le b a = true → a = b)
+    (htrans : ∀ a b c, le a b = true → le b c = true → le a c = true)
+    (d : RV τ ν υ) (hsorted : d.t.Pairwise (fun a b => le a b = true)) (perm : List Nat) (d' : RV τ ν υ)
+    (h : copy fint finv le d perm = .ok d') : d'.t = d.t := by
+  obtain ⟨hperm, ht, _⟩ := copy_arrays fint finv le d perm d' h
+  have hs' := sorted_by_time fint finv le htrans _ _ _ _ _ _ _ perm d' h
+  have hp : d'.t.Perm d.t := by rw [ht]; exact gather_perm perm d.t hperm
+  exact List.Perm.eq_of_pairwise (le := fun a b => le a b = true) (fun a b _ _ => hanti a b) hs' hsorted hp
+
+/-- slicing: `data[sel]` holds the triples at the positions `sel` of the (sorted) data — a permutation `σ` of
+`sel` indexes every array -/
+theorem slice_pairs (d : RV τ ν υ) (e : List ν) (hu : d.unc = .std e)
+    (hrv : d.rv.length = d.t.length) (hel : e.length = d.t.length)
+    (sel : List Nat) (hsel : ∀ i ∈ sel, i < d.t.length) (perm : List Nat) (d' : RV τ ν υ)
+    (h : getitem fint finv le d sel perm = .ok d') :
+    let σ := gather perm sel
+    σ.Perm sel ∧ d'.rvUnit = d.rvUnit ∧ d'.errUnit = d.errUnit ∧
+    ∃ e', d'.unc = .std e' ∧ d'.t.zip (d'.rv.zip e') = gather σ (d.t.zip (d.rv.zip e)) := by
+  intro σ
+  unfold getitem at h
+  rw [hu] at h
+  simp only [Unc.gather] at h
+  obtain ⟨es', hes', hz⟩ := pairing_preserved fint finv le _ _ _ _ _ _ _ perm d' h
+  obtain ⟨hs, hv, _, _, _, h1, h2, _⟩ := init_ok fint finv le _ _ _ _ _ _ _ perm d' h
+  simp only [validPerm, Bool.and_eq_true] at hv
+  have hkeep : keepMask fint finv false (gather sel d.t) (gather sel d.rv) (.std (gather sel e))
+      = (gather sel d.t).map (fun _ => true) := by simp [keepMask]
+  rw [hkeep] at hv hz
+  rw [maskSel_all_true _ _ rfl] at hv
+  have hlen : (gather sel d.t).length = sel.length := gather_length sel d.t hsel
+  have hperm := isPermOfRange_perm _ _ hv.1
+  have hlt : ∀ i ∈ perm, i < (gather sel d.t).length := perm_lt_of_isPermOfRange _ _ hv.1
+  rw [selection_all_true _ perm hlt] at hz
+  refine ⟨?_, h1, h2, es', hes', ?_⟩
+  · exact gather_perm perm sel (by rw [← hlen]; exact hperm)
+  · rw [hz, ← gather_zip sel d.rv e (by omega), ← gather_zip sel d.t _ (by rw [List.length_zip]; omega)]
+    exact gather_gather perm sel _ (fun i hi => by
+      have := hsel i hi
+      simp only [List.length_zip]; omega)
+
+/-- slicing with a covariance: restricted to `sel × sel`, rows and columns by the same list -/
+theorem slice_pairs_cov (d : RV τ ν υ) (c : Cov ν) (hu : d.unc = .cov c)
+    (hrv : d.rv.length = d.t.length) (hc : c.length = d.t.length) (hrow : ∀ row ∈ c, row.length = d.t.length)
+    (sel : List Nat) (hsel : ∀ i ∈ sel, i < d.t.length) (perm : List Nat) (d' : RV τ ν υ)
+    (h : getitem fint finv le d sel perm = .ok d') :
+    let σ := gather perm sel
+    σ.Perm sel ∧ d'.t.zip d'.rv = gather σ (d.t.zip d.rv) ∧
+    ∃ c', d'.unc = .cov c' ∧
+      ∀ i j, entry c' i j = (σ[i]?).bind (fun a => (σ[j]?).bind (fun b => entry c a b)) := by
+  intro σ
+  unfold getitem at h
+  rw [hu] at h
+  simp only [Unc.gather] at h
+  obtain ⟨c', hc', hz, hent⟩ := pairing_preserved_cov fint finv le _ _ _ _ _ _ _ perm d' h
+  obtain ⟨hs, hv, _, _, _, _, _, _⟩ := init_ok fint finv le _ _ _ _ _ _ _ perm d' h
+  simp only [validPerm, Bool.and_eq_true] at hv
+  have hkeep : keepMask fint finv false (gather sel d.t) (gather sel d.rv)
+      (.cov ((gather sel c).map (gather sel))) = (gather sel d.t).map (fun _ => true) := by simp [keepMask]
+  rw [hkeep] at hv hz hent
+  rw [maskSel_all_true _ _ rfl] at hv
+  have hlen : (gather sel d.t).length = sel.length := gather_length sel d.t hsel
+  have hperm := isPermOfRange_perm _ _ hv.1
+  have hlt : ∀ i ∈ perm, i < (gather sel d.t).length := perm_lt_of_isPermOfRange _ _ hv.1
+  rw [selection_all_true _ perm hlt] at hz hent
+  have hσ : ∀ r, σ[r]? = (perm[r]?).bind (fun a => sel[a]?) :=
+    gather_getElem? perm sel (fun i hi => by rw [← hlen]; exact hlt i hi)
+  refine ⟨gather_perm perm sel (by rw [← hlen]; exact hperm), ?_, c', hc', ?_⟩
+  · rw [hz, ← gather_zip sel d.t d.rv hrv.symm]
+    exact gather_gather perm sel _ (fun i hi => by
+      have := hsel i hi
+      simp only [List.length_zip]; omega)
+  · intro i j
+    rw [hent i j, hσ i, hσ j]
+    cases hi : perm[i]? with
+    | none => simp
+    | some a =>
+      cases hj : perm[j]? with
+      | none => cases sel[a]? <;> simp
+      | some b =>
+        simp only [Option.bind_some]
+        exact entry_gather sel c d.t.length hc hrow hsel a b
+
+/-- the nondeterministic model is not vacuous: for a total transitive order on times every well-shaped input
+(with a usable `t_ref` argument) has an accepted sorting permutation, i.e. a run of the model to which all the
+theorems above apply -/
+theorem init_accepts_some_permutation (htrans : ∀ a b c, le a b = true → le b c = true → le a c = true)
+    (htotal : ∀ a b, (le a b || le b a) = true)
+    (ts : List τ) (rvs : List ν) (unc : Unc ν) (uRv uErr : υ) (clean : Bool) (tref : TRefArg τ)
+    (hs : shapeOk ts rvs unc = true) (htr : tref ≠ .notTime)
+    (hne : tref = .default → maskSel (keepMask fint finv clean ts rvs unc) ts ≠ []) :
+    ∃ perm d, init fint finv le ts rvs unc uRv uErr clean tref perm = .ok d := by
+  obtain ⟨perm, hv⟩ := exists_validPerm le htrans htotal (maskSel (keepMask fint finv clean ts rvs unc) ts)
+  refine ⟨perm, ?_⟩
+  have hv' := hv
+  simp only [validPerm, Bool.and_eq_true] at hv'
+  have hp := gather_perm perm _ (isPermOfRange_perm _ _ hv'.1)
+  unfold init
+  simp only [hs, hv, Bool.not_true, Bool.false_eq_true, if_false]
+  cases tref with
+  | default =>
+    cases hg : gather perm (maskSel (keepMask fint finv clean ts rvs unc) ts) with
+    | nil =>
+      rw [hg] at hp
+      exact absurd hp.symm.eq_nil (hne rfl)
+    | cons m r => simp [resolveTRef]
+  | disabled => simp [resolveTRef]
+  | explicit x => simp [resolveTRef]
+  | notTime => exact absurd rfl htr
+
+/-! ### non-vacuity: concrete inputs on which the model runs and the hypotheses hold -/
+
+section Examples
+
+/-- 5 epochs, unsorted with a tie (times 7 and 7), one non-finite velocity (`none`); sorted by `[2,0,3,1]` -/
+example :
+    (init (fun (_ : Nat) => true) (fun (v : Option Nat) => v.isSome) (fun a b => decide (a ≤ b))
+        [7, 9, 3, 7, 5] [some 70, some 90, some 30, some 71, none] (.std [some 1, some 2, some 3, some 4, some 5])
+        "km/s" "m/s" true .default [2, 0, 3, 1]).toOption.map (fun d => (d.t, d.rv, d.tref, d.rvUnit))
+      = some ([3, 7, 7, 9], [some 30, some 70, some 71, some 90], some 3, "km/s") := by decide
+
+/-- the other order of the tied epochs is accepted as well … -/
+example :
+    (init (fun (_ : Nat) => true) (fun (v : Option Nat) => v.isSome) (fun a b => decide (a ≤ b))
+        [7, 9, 3, 7, 5] [some 70, some 90, some 30, some 71, none] (.std [some 1, some 2, some 3, some 4, some 5])
+        "km/s" "m/s" true .default [2, 3, 0, 1]).toOption.map (fun d => (d.t, d.rv))
+      = some ([3, 7, 7, 9], [some 30, some 71, some 70, some 90]) := by decide
+
+/-- … a non-sorting permutation is not -/
+example :
+    (init (fun (_ : Nat) => true) (fun (v : Option Nat) => v.isSome) (fun a b => decide (a ≤ b))
+        [7, 9, 3, 7, 5] [some 70, some 90, some 30, some 71, none] (.std [some 1, some 2, some 3, some 4, some 5])
+        "km/s" "m/s" true .default [0, 1, 2, 3]).toOption.isNone = true := by decide
+
+/-- a covariance is filtered and permuted in rows and columns -/
+example :
+    (init (fun (_ : Nat) => true) (fun (v : Option Nat) => v.isSome) (fun a b => decide (a ≤ b))
+        [5, 1, 3] [some 50, some 10, none]
+        (.cov [[some 11, some 12, some 13], [some 21, some 22, some 23], [some 31, some 32, some 33]])
+        "km/s" "km2/s2" true (.explicit 0) [1, 0]).toOption.map
+          (fun d => (d.t, d.rv, match d.unc with | .cov c => c | .std _ => [], d.tref))
+      = some ([1, 5], [some 10, some 50], [[some 22, some 21], [some 12, some 11]], some 0) := by decide
+
+/-- copy keeps "no reference epoch"; a slice holds the selected positions -/
+example :
+    let d : RV Nat Nat String := { t := [1, 2, 2, 4], rv := [10, 20, 21, 40], unc := .std [1, 2, 3, 4], tref := none,
+                                   rvUnit := "km/s", errUnit := "km/s" }
+    ((copy (fun _ => true) (fun _ => true) (fun a b => decide (a ≤ b)) d [0, 1, 2, 3]).toOption.map
+        (fun c => (c.t, c.rv, c.tref)) = some ([1, 2, 2, 4], [10, 20, 21, 40], none)) ∧
+    ((getitem (fun _ => true) (fun _ => true) (fun a b => decide (a ≤ b)) d [3, 1] [1, 0]).toOption.map
+        (fun c => (c.t, c.rv, c.tref)) = some ([2, 4], [20, 40], some 2)) := by decide
+
+end Examples
+
+end Data
